@@ -67,7 +67,7 @@ Proof.
   assert (Hw0 : (length work0 <= length data)%nat) by (unfold work0; rewrite !skipn_length; lia).
   match goal with |- context [s_while fuel ?c ?b] =>
     assert (Hloop : forall body, (forall l w, body l w = b l w) -> forall j l wk pre,
-              vunpack__work_data l = PBytes wk -> vunpack__self l = frame_obj data (fields_obj pre) ->
+              vunpack__ROLE_work l = PBytes wk -> vunpack__self l = frame_obj data (fields_obj pre) ->
               (length wk < j)%nat -> (j <= fuel)%nat ->
               match valget_items sk (length wk) wk with
               | Ok its => exists l', s_while j c body l w = CNormal l' w
@@ -75,11 +75,13 @@ Proof.
               | Raise e => exists l', s_while j c body l w = CRaise e l' w
               end) end.
   { intros body Hb. induction j as [|j IH]; intros l wk pre Hwk Hself Hj Hjf; [lia|].
-    rewrite valget_items_unfold. cbn [s_while]. rewrite Hwk. cbn. rewrite le4.
-    destruct (Nat.ltb (length wk) 4) eqn:Hlt; cbn.
+    rewrite valget_items_unfold. cbn [s_while].
+    (* whatever decides to stop - the loop condition or a test with `break` at the top of the body *)
+    Ltac vg_norm Hb Hwk := repeat (progress (rewrite ?Hb; py_unfold; cbn; rewrite ?Hwk, ?le4, ?len_lt4)).
+    vg_norm Hb Hwk.
+    destruct (Nat.ltb (length wk) 4) eqn:Hlt; vg_norm Hb Hwk.
     - exists l. rewrite app_nil_r. split; [reflexivity | exact Hself].
-    - rewrite Hb. py_unfold. cbn. rewrite Hwk.
-      change py_new_cfgkey with (obj5 PNone PNone (PInt 0) (PBool false) PNone).
+    - change py_new_cfgkey with (obj5 PNone PNone (PInt 0) (PBool false) PNone).
       rewrite (bridge_unpack_gen sk fuel). unfold lift_unpack.
       destruct (unpack_item_cfg sk wk) as [[it n]|e] eqn:Eu; cbn.
       + pose proof (unpack_ok_consumes sk wk it n Eu) as Hn.
